@@ -1564,3 +1564,304 @@ Lemma new_worker_job_error_run :
     epc s = RDone /\ egot s = [31] /\ eran s = [10; 11; 12] /\ epend s = [13] /\ eerr s = Some 11 /\
     eout s = [Some 11; Some 11; Some 11].
 Proof. intros md. destruct md; eexists; vm_compute; repeat split; reflexivity. Qed.
+
+
+(* ======================================================================================
+   The consumer of the root's iterator stops after k items (Model/Dispatch.v, qstep): for every
+   task list, number of workers, rank set, send mode, schedule and every k.  No axioms. *)
+Lemma nth_error_upd_eq A i (x y : A) l : nth_error l i = Some y -> nth_error (upd i x l) i = Some x.
+Proof.
+  intros H. destruct (@upd_split _ _ _ _ x H) as (l1 & l2 & E & E' & Hl). rewrite E'. subst i.
+  rewrite nth_error_app2 by lia. rewrite Nat.sub_diag. reflexivity.
+Qed.
+
+Lemma nth_error_upd_other A j i (x y z : A) l :
+  nth_error l j = Some y -> nth_error l i = Some z -> i <> j -> nth_error (upd j x l) i = Some z.
+Proof.
+  intros Hj Hi Hne. destruct (@upd_split _ _ _ _ x Hj) as (l1 & l2 & E & E' & Hl).
+  rewrite E'. rewrite E in Hi. destruct (nth_mid _ _ _ _ Hi) as [[Hij _]|[_ Hx]]; [lia|]. apply Hx.
+Qed.
+
+Lemma forallb_false_nth A (p : A -> bool) l :
+  forallb p l = false -> exists i x, nth_error l i = Some x /\ p x = false.
+Proof.
+  induction l as [|y l IH]; simpl; [discriminate|]. destruct (p y) eqn:E; simpl.
+  - intros H. destruct (IH H) as (i & x & Hi & Hx). exists (S i), x. auto.
+  - intros _. exists 0, y. auto.
+Qed.
+
+Section DispatchQP.
+Context {T R : Type}.
+Context (f : T -> R).
+Context (allowed : nat -> bool).
+Context (fb : bool).
+Context (md : mode).
+
+Local Notation worker := (Dispatch.worker T R).
+Local Notation st := (Dispatch.st T R).
+Local Notation qst := (Dispatch.qst T R).
+Local Notation step := (Dispatch.step f allowed fb md).
+Local Notation reach := (Dispatch.reach f allowed fb md).
+Local Notation wstep := (Dispatch.wstep f).
+Local Notation qstep := (Dispatch.qstep f allowed fb md).
+Local Notation qreach := (Dispatch.qreach f allowed fb md).
+Local Notation qsteps := (Dispatch.qsteps f allowed fb md).
+Local Notation qstuck := (Dispatch.qstuck f allowed fb md).
+Local Notation init := (@Dispatch.init T R).
+Local Notation qinit := (@Dispatch.qinit T R).
+
+Lemma wstep_step s s' : wstep s s' -> step s s'.
+Proof. intros H. inversion H; subst; [eapply s_wtask | eapply s_weoq]; eauto. Qed.
+
+Lemma wstep_frozen s s' : wstep s s' -> pc s' = pc s /\ pend s' = pend s /\ got s' = got s.
+Proof. intros H. inversion H; subst; auto. Qed.
+
+(* ---- termination: every step decreases the measure of the protocol state ---- *)
+Theorem qstep_decreases k s s' : qstep k s s' -> mu (qs s') < mu (qs s).
+Proof.
+  intros H.
+  inversion H as [b b' Hst Hlt | i a p l g r w x xs Hn Ho Hr Hk | t p l g r Hfb Hr Hk | b b' who Hw]; subst; cbn [qs].
+  - apply (step_decreases Hst).
+  - unfold mu; cbn [pc pend Dispatch.ws pcw length].
+    pose proof (nth_error_lt _ _ Hn) as Hl.
+    pose proof (@nsum_upd T R (@wm T R) i w (mkW (inb w) xs (fin w)) l Hn) as Hs.
+    try rewrite (upd_length _ _ Hl). rewrite !wm_def in Hs. cbn [inb outb] in Hs. rewrite Ho in Hs. cbn [length] in Hs. lia.
+  - unfold mu; cbn [pc pend Dispatch.ws pcw length]. lia.
+  - apply (step_decreases (wstep_step Hw)).
+Qed.
+
+Theorem qdispatch_terminates k n s s' : qsteps k n s s' -> n + mu (qs s') <= mu (qs s).
+Proof.
+  induction 1 as [s|n s s1 s2 Hs _ IH]; [lia|]. pose proof (qstep_decreases Hs). lia.
+Qed.
+
+Lemma qreach_trans k s0 s1 s2 : qreach k s0 s1 -> qreach k s1 s2 -> qreach k s0 s2.
+Proof. intros H1 H2. induction H2; [exact H1|]. eapply qreach_step; eauto. Qed.
+
+(* ---- once the consumer has stopped the root is frozen ---- *)
+Theorem qstopped_frozen k s s' who :
+  qstep k s s' -> qstop s = Some who ->
+  qstop s' = Some who /\ pc (qs s') = pc (qs s) /\ pend (qs s') = pend (qs s) /\ got (qs s') = got (qs s).
+Proof.
+  intros H Hq.
+  inversion H as [b b' Hst Hlt | i a p l g r w x xs Hn Ho Hr Hk | t p l g r Hfb Hr Hk | b b' who' Hw]; subst;
+    cbn [qstop qs] in *; try discriminate.
+  injection Hq as <-. destruct (wstep_frozen Hw) as (A & B & C). auto.
+Qed.
+
+(* ---- a stopped state in which every worker is quiet cannot move ---- *)
+Lemma qquiet_stuck k s who : qstop s = Some who -> qquiet s = true -> qstuck k s.
+Proof.
+  intros Hq Hqu s' H.
+  inversion H as [b b' Hst Hlt | i a p l g r w x xs Hn Ho Hr Hk | t p l g r Hfb Hr Hk | b b' who' Hw]; subst;
+    cbn [qstop qs] in *; try discriminate.
+  unfold qquiet in Hqu. cbn [qs] in Hqu.
+  inversion Hw as [i c p l g r w t ms Hn Hf Hi | i c p l g r w ms Hn Hf Hi]; subst; cbn [Dispatch.ws] in Hqu;
+    pose proof (forallb_nth _ _ _ Hqu Hn) as Hp; cbn beta in Hp; rewrite Hi, Hf in Hp; discriminate.
+Qed.
+
+(* ---- ... and every stopped state runs into one: the world is deadlocked ---- *)
+Theorem consumer_stop_gets_stuck k s who :
+  qstop s = Some who ->
+  exists s', qreach k s s' /\ qstop s' = Some who /\ qquiet s' = true /\ qstuck k s'.
+Proof.
+  remember (mu (qs s)) as m eqn:Em. revert s Em.
+  induction m as [m IH] using lt_wf_ind. intros s Em Hq.
+  destruct (qquiet s) eqn:Hqu.
+  - exists s. split; [constructor|]. split; [exact Hq|]. split; [exact Hqu|]. eapply qquiet_stuck; eauto.
+  - destruct s as [b q]. cbn [qstop] in Hq. subst q. unfold qquiet in Hqu. cbn [qs] in *.
+    destruct (forallb_false_nth _ _ Hqu) as (i & w & Hn & Hp). cbn beta in Hp.
+    apply orb_false_iff in Hp as [Hi Hf]. destruct b as [c p l g r]. cbn [Dispatch.ws] in Hn.
+    destruct (inb w) as [|[t|] ms] eqn:Ei; [discriminate| |].
+    + pose (b1 := mkS c p (upd i (mkW ms (outb w ++ [f t]) false) l) g (r ++ [t])).
+      assert (Hs : qstep k (mkQ (mkS c p l g r) (Some who)) (mkQ b1 (Some who))).
+      { apply q_worker. eapply w_task; eauto. }
+      destruct (IH (mu b1) ltac:(subst m; apply (qstep_decreases Hs)) (mkQ b1 (Some who)) eq_refl eq_refl)
+        as (s2 & Hr2 & Hq2 & Hqu2 & Hst2).
+      exists s2. split; [|auto]. eapply qreach_trans; [eapply qreach_step; [constructor|exact Hs]|exact Hr2].
+    + pose (b1 := mkS c p (upd i (mkW ms (outb w) true) l) g r).
+      assert (Hs : qstep k (mkQ (mkS c p l g r) (Some who)) (mkQ b1 (Some who))).
+      { apply q_worker. eapply w_eoq; eauto. }
+      destruct (IH (mu b1) ltac:(subst m; apply (qstep_decreases Hs)) (mkQ b1 (Some who)) eq_refl eq_refl)
+        as (s2 & Hr2 & Hq2 & Hqu2 & Hst2).
+      exists s2. split; [|auto]. eapply qreach_trans; [eapply qreach_step; [constructor|exact Hs]|exact Hr2].
+Qed.
+
+(* ---- invariant of the runs from the initial state ---- *)
+Definition qwaiting (i : nat) (s : qst) : Prop :=
+  exists w, nth_error (ws (qs s)) i = Some w /\ inb w = [] /\ outb w = [] /\ fin w = false.
+
+Definition QInv (k : nat) (tasks : list T) (n : nat) (s : qst) : Prop :=
+  match qstop s with
+  | None => reach (init tasks n) (qs s) /\ length (got (qs s)) < k
+  | Some who => (exists a, pc (qs s) = RLoop a) /\ length (got (qs s)) = k /\ k <= length tasks
+                /\ match who with Some i => qwaiting i s | None => True end
+  end.
+
+Lemma outb_le_flat (l : list worker) i w :
+  nth_error l i = Some w -> length (outb w) <= length (flat_map (@outb T R) l).
+Proof.
+  intros H. rewrite (nth_error_split' _ _ H). rewrite flat_map_app. cbn [flat_map]. rewrite !app_length. lia.
+Qed.
+
+Lemma reach_lengths tasks n s :
+  reach (init tasks n) s ->
+  length (pend s) + length (got s) + length (flat_map (@outb T R) (ws s)) <= length tasks.
+Proof.
+  intros Hr. destruct (Inv_reach Hr) as (_ & Hp1 & Hp2 & _).
+  apply Permutation_length in Hp1. apply Permutation_length in Hp2.
+  rewrite map_length in Hp2. rewrite !app_length in *. lia.
+Qed.
+
+Lemma QInv_step k tasks n s s' : QInv k tasks n s -> qstep k s s' -> QInv k tasks n s'.
+Proof.
+  intros HI H.
+  inversion H as [b b' Hst Hlt | i a p l g r w x xs Hn Ho Hr Hk | t p l g r Hfb Hr Hk | b b' who Hw]; subst;
+    unfold QInv in *; cbn [qstop qs] in *.
+  - destruct HI as [Hre _]. split; [eapply reach_step; eauto|exact Hlt].
+  - destruct HI as [Hre _].
+    pose proof (reach_lengths Hre) as Hlen. cbn [pend got Dispatch.ws] in Hlen.
+    pose proof Hn as Hle; apply outb_le_flat in Hle. rewrite Ho in Hle. cbn [length] in Hle.
+    destruct (Inv_reach Hre) as (Hsh & _). cbn [Dispatch.ws] in Hsh.
+    assert (Hw : shape w) by (eapply Forall_nth; eauto).
+    split; [eexists; reflexivity|]. split; [cbn [got]; rewrite app_length; cbn [length]; lia|]. split; [lia|].
+    exists (mkW (inb w) xs (fin w)). cbn [Dispatch.ws qs].
+    split; [eapply nth_error_upd_eq; eauto|].
+    inversion Hw as [E|t0 E|x0 E|E|E]; subst w; cbn [inb outb fin] in *; try discriminate.
+    injection Ho as _ <-. auto.
+  - destruct HI as [Hre _].
+    pose proof (reach_lengths Hre) as Hlen. cbn [pend got Dispatch.ws length] in Hlen.
+    split; [eexists; reflexivity|]. split; [cbn [got]; rewrite app_length; cbn [length]; lia|]. split; [lia|exact I].
+  - destruct HI as ((a & Hpc) & Hlen & Hk & Hwho). destruct (wstep_frozen Hw) as (A & B & C).
+    split; [exists a; congruence|]. split; [congruence|]. split; [exact Hk|].
+    destruct who as [i|]; [|exact I]. destruct Hwho as (w & Hn & Hi & Ho & Hf). cbn [qs] in *.
+    inversion Hw as [j c p l g r w1 t ms Hn1 Hf1 Hi1 | j c p l g r w1 ms Hn1 Hf1 Hi1]; subst; cbn [Dispatch.ws] in *;
+      (assert (Hne : i <> j) by (intros ->; rewrite Hn in Hn1; injection Hn1 as <-; rewrite Hi in Hi1; discriminate));
+      exists w; (split; [eapply nth_error_upd_other; eauto|auto]).
+Qed.
+
+Lemma QInv_reach k tasks n s : 1 <= k -> qreach k (qinit tasks n) s -> QInv k tasks n s.
+Proof.
+  intros Hk. induction 1 as [|s s' _ IH Hs]; [|eapply QInv_step; eauto].
+  unfold QInv, Dispatch.qinit. cbn [qstop qs]. split; [constructor|cbn; lia].
+Qed.
+
+(* (1) after the stop: the root sits in its loop (it never enters the closing collective), the
+   consumer holds exactly k items, and the worker whose result was the k-th item waits in
+   recv(source=0) with no message in flight to it - it never gets its sentinel *)
+Theorem consumer_stop_blocks k tasks n s who :
+  1 <= k -> qreach k (qinit tasks n) s -> qstop s = Some who ->
+  (exists a, pc (qs s) = RLoop a) /\ length (got (qs s)) = k /\ k <= length tasks /\
+  (forall i, who = Some i -> qwaiting i s).
+Proof.
+  intros Hk Hr Hq. pose proof (QInv_reach Hk Hr) as HI. unfold QInv in HI. rewrite Hq in HI.
+  destruct HI as (A & B & C & D). repeat split; auto. intros i ->. exact D.
+Qed.
+
+(* (2) a consumer that stops after k <= |tasks| items: NO run of the protocol ends with all ranks
+   returned (repaired algorithm, every rank set - also max_workers = 1) *)
+Theorem consumer_stop_never_done k tasks n s :
+  fb = true -> 1 <= k <= length tasks -> qreach k (qinit tasks n) s -> pc (qs s) <> RDone.
+Proof.
+  intros Hfb [Hk1 Hk2] Hr Hpc. pose proof (QInv_reach Hk1 Hr) as HI. unfold QInv in HI.
+  destruct (qstop s) as [who|].
+  - destruct HI as ((a & Ha) & _). congruence.
+  - destruct HI as [Hre Hlt].
+    destruct (dispatch_exactly_once_total Hfb Hre Hpc) as [_ HP].
+    apply Permutation_length in HP. rewrite map_length in HP. lia.
+Qed.
+
+(* (3) a consumer that asks for more items than there are tasks never stops: its runs are the
+   runs of the protocol *)
+Theorem consumer_exhausts_is_protocol k tasks n :
+  length tasks < k ->
+  (forall s, qreach k (qinit tasks n) s -> qstop s = None /\ reach (init tasks n) (qs s)) /\
+  (forall b, reach (init tasks n) b -> qreach k (qinit tasks n) (mkQ b None)).
+Proof.
+  intros Hk. split.
+  - intros s Hr. assert (Hk1 : 1 <= k) by lia. pose proof (QInv_reach Hk1 Hr) as HI. unfold QInv in HI.
+    destruct (qstop s) as [who|]; [destruct HI as (_ & _ & Hle & _); lia|]. destruct HI; auto.
+  - induction 1 as [|b b' Hre IH Hst]; [constructor|].
+    eapply qreach_step; [exact IH|]. apply q_run; [exact Hst|].
+    pose proof (reach_lengths (reach_step Hre Hst)). lia.
+Qed.
+
+(* ---- the executable step is sound ---- *)
+Lemma step_with_wchoice c s s' :
+  is_wchoice c = true -> step_with f allowed fb md c s = Some s' -> wstep s s'.
+Proof.
+  destruct s as [c0 p l g r]. destruct c; try discriminate; intros _; unfold step_with; cbn [Dispatch.ws pc pend got ran];
+    destruct (nth_error l i) as [w|] eqn:Hn; try discriminate;
+    destruct (fin w) eqn:Hf; try discriminate;
+    destruct (inb w) as [|[t|] ms] eqn:Hi; try discriminate; intros E; injection E as <-.
+  - eapply w_task; eauto.
+  - eapply w_eoq; eauto.
+Qed.
+
+Lemma qstep_with_sound k c s s' : qstep_with f allowed fb md k c s = Some s' -> qstep k s s'.
+Proof.
+  destruct s as [b q]. unfold qstep_with. cbn [qs qstop].
+  destruct c as [c'|i|]; destruct q as [who|]; try discriminate.
+  - destruct (is_wchoice c') eqn:Hw; [|discriminate].
+    destruct (step_with f allowed fb md c' b) as [b'|] eqn:E; [|discriminate].
+    intros H; injection H as <-. apply q_worker. eapply step_with_wchoice; eauto.
+  - destruct (step_with f allowed fb md c' b) as [b'|] eqn:E; [|discriminate].
+    destruct (length (got b') <? k) eqn:Hl; [|discriminate].
+    intros H; injection H as <-. apply q_run; [eapply step_with_sound; eauto|apply Nat.ltb_lt; exact Hl].
+  - destruct b as [c0 p l g r]. cbn [pc Dispatch.ws pend got ran].
+    destruct c0 as [? ?|[|a]| |]; try discriminate.
+    destruct (nth_error l i) as [w|] eqn:Hn; [|discriminate].
+    destruct (outb w) as [|x xs] eqn:Ho; [discriminate|].
+    destruct (root_ok md l && (S (length g) =? k)) eqn:Hc; [|discriminate].
+    apply andb_true_iff in Hc as [Hr Hk]. apply Nat.eqb_eq in Hk.
+    intros H; injection H as <-. eapply q_stop_recv; eauto.
+  - destruct b as [c0 p l g r]. cbn [pc Dispatch.ws pend got ran].
+    destruct c0 as [? ?|[|a]| |]; try discriminate.
+    destruct p as [|t p]; [discriminate|].
+    destruct (fb && root_ok md l && (S (length g) =? k)) eqn:Hc; [|discriminate].
+    apply andb_true_iff in Hc as [Hc Hk]. apply andb_true_iff in Hc as [Hfb Hr]. apply Nat.eqb_eq in Hk.
+    intros H; injection H as <-. eapply q_stop_fallback; eauto.
+Qed.
+
+Lemma qrun_sound k cs s s' : qrun f allowed fb md k cs s = Some s' -> qreach k s s'.
+Proof.
+  revert s. induction cs as [|c cs IH]; simpl; intros s H.
+  - injection H as <-. constructor.
+  - destruct (qstep_with f allowed fb md k c s) as [s1|] eqn:E; [|discriminate].
+    apply (qreach_trans (s1 := s1)); [|apply IH; exact H].
+    eapply qreach_step; [apply qreach_refl|]. eapply qstep_with_sound. exact E.
+Qed.
+End DispatchQP.
+
+(* the repaired algorithm (root fallback) as an instance *)
+Corollary consumer_stop_never_done_repaired :
+  forall (T R : Type) (f : T -> R) allowed md k (tasks : list T) n (s : qst T R),
+  1 <= k <= length tasks -> qreach f allowed true md k (qinit tasks n) s -> pc (qs s) <> RDone.
+Proof. intros T R f allowed md k tasks n s. exact (@consumer_stop_never_done T R f allowed true md k tasks n s eq_refl). Qed.
+
+(* ---------- the wrapper that stops once it has seen all expected items ---------- *)
+(* world size 3, tasks 10 20 30, the consumer stops after 3 = |tasks| items (it has everything
+   it expects: [31; 61; 91]).  Worker 2 got its sentinel after its last result; worker 1 delivered
+   the third item and is never answered: it waits in recv(source=0) for ever, the root never
+   enters the closing collective, nothing can move - in both send modes, although the root's
+   values are complete and correct *)
+Definition qstop_choices : list qchoice :=
+  [QRun (CInitTask 0); QRun (CWTask 0); QRun (CInitTask 1); QRun (CWTask 1); QRun CInitDone;
+   QRun (CRecvMore 0); QRun (CWTask 0); QRun (CRecvLast 1); QRun (CWEoq 1); QStopRecv 0].
+
+Theorem consumer_stop_after_last_item_refuted :
+  forall md, exists s : qst nat nat,
+    qreach c06_f (c06_allowed [0; 1; 2]) true md 3 (qinit [10; 20; 30] 2) s /\
+    qstuck c06_f (c06_allowed [0; 1; 2]) true md 3 s /\
+    qstop s = Some (Some 0) /\ pc (qs s) = RLoop 1 /\ pend (qs s) = [] /\
+    got (qs s) = [31; 61; 91] /\ got (qs s) = map c06_f [10; 20; 30] /\ ran (qs s) = [10; 20; 30] /\
+    ws (qs s) = [mkW [] [] false; mkW [] [] true].
+Proof.
+  intros md.
+  destruct (qrun c06_f (c06_allowed [0; 1; 2]) true md 3 qstop_choices (qinit [10; 20; 30] 2)) as [s|] eqn:E;
+    [|destruct md; vm_compute in E; discriminate].
+  exists s. pose proof (qrun_sound _ _ _ _ _ _ _ E) as Hr. split; [exact Hr|].
+  destruct md; vm_compute in E; injection E as <-;
+    (split; [eapply qquiet_stuck; [reflexivity|vm_compute; reflexivity]|]);
+    cbn [qstop qs pc pend got ran ws]; repeat split; reflexivity.
+Qed.
